@@ -60,6 +60,29 @@ def concretise(case, pres):
             names = names[r:] + names[:r]
         L[vals[i]] = names
     S0 = [vals[i] for i in pres.get('S0', [])]
+    # the same collections in other container types (the constructor takes
+    # "a collection"): tuple, set, frozenset, dict keys, one-shot iterator
+    ct = pres.get('ctype') or {}
+
+    def cast(x, kind):
+        if x is None or kind in (None, 'list'):
+            return x
+        if kind == 'tuple':
+            return tuple(x)
+        if kind == 'set':
+            return set(x)
+        if kind == 'frozenset':
+            return frozenset(x)
+        if kind == 'keys':
+            return dict.fromkeys(x).keys()
+        if kind == 'iter':
+            return iter(list(x))
+        return x
+    S = cast(S, ct.get('S'))
+    R = cast(R, ct.get('R'))
+    S0 = cast(S0, ct.get('S0'))
+    if ct.get('lab'):
+        L = dict((k, cast(v, ct['lab'])) for k, v in L.items())
     tree = core.rename_atoms(case['f'], amap)
     F = None
     if case.get('F') is not None:
@@ -178,6 +201,13 @@ def gen_presentation(rng, case, cfg):
             labs = [list(l) for l in K['lab']] + (pad['lab'] if pad else [])
             Lo = [i for i in Lo if labs[i] or rng.random() < 0.5]
     pres['S'], pres['R'], pres['L'] = S, R, Lo
+    if 'ctype' in kinds and rng.random() < 0.5:
+        pres['ctype'] = {
+            'S': rng.choice(['list', 'tuple', 'set', 'keys', 'iter']),
+            'R': rng.choice(['list', 'tuple', 'set', 'iter']),
+            'S0': rng.choice(['list', 'set', 'tuple']),
+            'lab': rng.choice(['list', 'tuple', 'set', 'frozenset',
+                               'iter'])}
     if 'S0' in kinds and rng.random() < 0.3:
         pres['S0'] = sorted(rng.sample(range(tot), rng.randint(0, tot)))
     if 'atoms' in kinds and rng.random() < 0.6:
@@ -195,7 +225,7 @@ def gen_plan(seed, logic_mix):
     rng = random.Random(seed)
     logic = logic_mix[rng.randrange(len(logic_mix))]
     kinds = ['schedule']
-    for k in ['bijection', 'order', 'atoms', 'pad', 'S0']:
+    for k in ['bijection', 'order', 'atoms', 'pad', 'S0', 'ctype']:
         if rng.random() < 0.6:
             kinds.append(k)
     fair = logic != 'LTL' and rng.random() < 0.25
